@@ -1030,6 +1030,19 @@ func (e *Engine) evalCall(env *Env, c *ast.CallExpr) TV {
 			return e.callStatic(fr, st, fv.Fn, args, rt, token.NoPos)
 		}()
 		return TV{V: rv, T: rt}
+	case "asptr":
+		// asptr(p, *T): the reference p (e.g. an unsafe.Pointer inside sync/atomic.Pointer) viewed as *T
+		x := e.eval(env, c.Args[0])
+		t := e.resolveType(env, c.Args[1])
+		if t == nil {
+			sfail("asptr: unknown type %s", exprString(c.Args[1]))
+		}
+		pt, ok := t.Underlying().(*types.Pointer)
+		if !ok {
+			sfail("asptr: %s is not a pointer type", t)
+		}
+		ref := e.flatten(x.T, x.V)[0]
+		return TV{V: &PtrSV{Kind: pkHeap, Ref: ref, Root: pt.Elem()}, T: t}
 	case "baseof":
 		// baseof(s): identity of the backing array of slice s (0 for nil)
 		x := e.eval(env, c.Args[0])
@@ -1209,6 +1222,12 @@ func (e *Engine) rotl64(x, k string) string {
 // ---- spec functions -----------------------------------------------------------
 
 func (e *Engine) specSig(env *Env, sf *SpecFunc) ([]types.Type, types.Type) {
+	// types are resolved in the package the spec function was declared for
+	if sf.Pkg != "" {
+		if p := e.spkgs[sf.Pkg]; p != nil && p.Pkg != env.pkg {
+			env = &Env{vars: env.vars, pkg: p.Pkg, e: e, cur: env.cur, old: env.old}
+		}
+	}
 	var pts []types.Type
 	for _, pt := range sf.PTypes {
 		t := e.resolveType(env, pt)
